@@ -40,6 +40,8 @@ SELFTEST = [
     {"mutation": "heartbeat: opportunistic graft forgets to_graft bookkeeping", "caught_by": "cover/heartbeat: every grafted peer is recorded in to_graft"},
     {"mutation": "handle_received_subscriptions: `if !topics_joined.is_empty()` -> `if topics_joined.is_empty()`", "caught_by": "cover/handle_received_subscriptions: non-empty graft list => one peer_added_to_mesh"},
     {"mutation": "heartbeat excess pruning: to_prune bookkeeping removed", "caught_by": "cover/heartbeat: every pruned peer is recorded in to_prune"},
+    {"mutation": "seeded C29: on_connection_closed `!peer.connections.is_empty()` -> `peer.connections.len() > 1`", "caught_by": "notify/hand-over happens whenever a connection remains"},
+    {"mutation": "NEUTRAL gs/11: private field EnabledHandler.in_mesh renamed", "caught_by": "(silent, the flag is identified by role)"},
 ]
 
 # one-edit source variants for the thorough-tier sensitivity self-test (vrules/selftest.py); each must be reported
@@ -104,14 +106,32 @@ def check(ctx):
     vs = sorted(v["name"] for v in hin["variants"])
     ctx.ob("handler", "HandlerIn = {JoinedMesh, LeftMesh}", vs == ["JoinedMesh", "LeftMesh"], msg=str(vs))
     ob = ctx.body(G, r"<handler::Handler as libp2p_swarm::ConnectionHandler>::on_behaviour_event$")
-    ws = ob.field_write_sites("in_mesh")
+    ka = ctx.body(G, r"<handler::Handler as libp2p_swarm::ConnectionHandler>::connection_keep_alive$")
+    # the mesh flag is identified by its role, not its name: the bool field of EnabledHandler that connection_keep_alive
+    # branches on and that on_behaviour_event assigns
+    eh = prog.adt(G, r"handler::EnabledHandler$")
+    bools = {f["n"] for f in eh["variants"][0]["fields"] if f["ty"] == "bool"}
+    read = set()
+    for bi in sorted(ka.live):
+        info = ka.switch_info(bi)
+        if info:
+            read |= {x[2] for x in mir.walk(info[0]) if x[0] == "field" and x[2] in bools and "EnabledHandler" in (x[3] or "")}
+    for _, e in gs.ret_exprs(ka):
+        read |= {x[2] for x in mir.walk(e) if x[0] == "field" and x[2] in bools and "EnabledHandler" in (x[3] or "")}
+    written = {f for f in bools if ob.field_write_sites(f, r"handler::EnabledHandler")}
+    flags = sorted(read & written)
+    ctx.ob("handler", "floor:mesh flag (bool field read by connection_keep_alive and written by on_behaviour_event)", len(flags) == 1, nontrivial=False,
+           msg="read by keep_alive %s, written by on_behaviour_event %s" % (sorted(read), sorted(written)))
+    FLAG = flags[0] if flags else "in_mesh"
+    msg_arg = gs.arg_of_type(ob, r"handler::HandlerIn$")
+    ws = ob.field_write_sites(FLAG, r"handler::EnabledHandler")
     ctx.floor("handler", "in_mesh writes in on_behaviour_event", ws, 2)
     rets = ob.return_blocks()
     w_true = [s for s in ws if render(ob.site_expr(s)) == "1"]
     w_false = [s for s in ws if render(ob.site_expr(s)) == "0"]
     ctx.ob("handler", "in_mesh is only assigned constants", len(w_true) + len(w_false) == len(ws), _loc(ob), str([render(ob.site_expr(s)) for s in ws]))
     for variant, want, other, val in (("JoinedMesh", w_true, w_false, "true"), ("LeftMesh", w_false, w_true, "false")):
-        ents = [t for bi, t in lib.arm_entry(ob, r"^discr\(message\)$", variant) if ob.must_pass_edges(bi, lib.switch_edges_on(ob, r"^discr\(self\)$", {"Enabled"}))]
+        ents = [t for bi, t in lib.arm_entry(ob, r"^discr\(%s\)$" % re.escape(gs.argname(ob, msg_arg)), variant) if ob.must_pass_edges(bi, lib.switch_edges_on(ob, r"^discr\(self\)$", {"Enabled"}))]
         ctx.ob("handler", "floor:%s arm" % variant, len(ents) == 1, nontrivial=False, msg=str(ents))
         if ents:
             a = lib.count_range(ob, ents, rets, lib.bbs(want))
@@ -120,26 +140,25 @@ def check(ctx):
                    "on the Enabled/%s arm: writes of %s %s, writes of the opposite value %s" % (variant, val, a, b))
     for s in ws:
         ctx.guarded("handler", "in_mesh written only for an Enabled handler", s, lambda c, r, l: l == "Enabled" and r == "discr(self)", "match self { Enabled(..) }")
-    who = sorted({b.npath for b in prog.bodies(G) if b.field_write_sites("in_mesh", r"handler::EnabledHandler")})
+    who = sorted({b.npath for b in prog.bodies(G) if b.field_write_sites(FLAG, r"handler::EnabledHandler")})
     ctx.ob("handler", "only on_behaviour_event writes in_mesh", who == [ob.npath], msg=str(who))
     inits = []
     for b in prog.bodies(G):
         for s in b.agg_sites(r"handler::EnabledHandler$"):
             e = b.site_expr(s)
-            inits += [render(x) for f, x in e[4] if f == "in_mesh"]
-    ctx.ob("handler", "in_mesh starts false", inits == ["0"], msg="EnabledHandler{in_mesh: %s}" % inits)
-    ka = ctx.body(G, r"<handler::Handler as libp2p_swarm::ConnectionHandler>::connection_keep_alive$")
+            inits += [render(x) for f, x in e[4] if f == FLAG]
+    ctx.ob("handler", "in_mesh starts false", inits == ["0"], msg="EnabledHandler{%s: %s}" % (FLAG, inits))
     ok = True
     n_true = 0
     for site, e in gs.ret_exprs(ka):
         if e[0] == "const" and e[1] == 1:
             n_true += 1
             g1 = ka.must_pass_edges(site.bb, lib.switch_edges_on(ka, r"^discr\(self\)$", {"Enabled"}))
-            g2 = ka.must_pass_edges(site.bb, ka.guard_edges(lambda c, r, l: l == "true" and c[0] == "field" and c[2] == "in_mesh"))
+            g2 = ka.must_pass_edges(site.bb, ka.guard_edges(lambda c, r, l: l == "true" and c[0] == "field" and c[2] == FLAG))
             ok = ok and g1 and g2
         elif not (e[0] == "const" and e[1] == 0):
             ok = False
-    t_edges = ka.guard_edges(lambda c, r, l: l == "true" and c[0] == "field" and c[2] == "in_mesh")
+    t_edges = ka.guard_edges(lambda c, r, l: l == "true" and c[0] == "field" and c[2] == FLAG)
     trues = [site.bb for site, e in gs.ret_exprs(ka) if e[0] == "const" and e[1] == 1]
     falses = [site.bb for site, e in gs.ret_exprs(ka) if e[0] == "const" and e[1] == 0]
     conv = bool(t_edges) and all(lib.count_range(ka, [t], ka.return_blocks(), falses) == (0, 0) and lib.count_range(ka, [t], ka.return_blocks(), trues) == (1, 1) for _, t in t_edges)
@@ -150,6 +169,11 @@ def check(ctx):
     pa = ctx.body(G, r"^libp2p_gossipsub::behaviour::peer_added_to_mesh$")
     pr = ctx.body(G, r"^libp2p_gossipsub::behaviour::peer_removed_from_mesh$")
     for fn, body, variant, wrong in (("peer_added_to_mesh", pa, "JoinedMesh", "LeftMesh"), ("peer_removed_from_mesh", pr, "LeftMesh", "JoinedMesh")):
+        a_peer = gs.arg_of_type(body, r"^libp2p_identity::PeerId$")
+        a_mesh = gs.arg_of_type(body, r"HashMap<topic::TopicHash, std::collections::BTreeSet<")
+        a_conn = gs.arg_of_type(body, r"HashMap<libp2p_identity::PeerId, types::PeerDetails>")
+        a_top = gs.arg_of_type(body, r"^std::vec::Vec<&topic::TopicHash>$" if fn == "peer_added_to_mesh" else r"^&topic::TopicHash$")
+        n_peer, n_conn = gs.argname(body, a_peer), gs.argname(body, a_conn)
         push = _event_pushes(body, variant)
         ctx.ob("notify", "%s emits %s" % (fn, variant), len(push) == 1 and not _event_pushes(body, wrong) and _mentions(body, wrong) == 0, push[0].loc() if push else _loc(body),
                "%d push(es) of NotifyHandler{%s}, %d of %s" % (len(push), variant, len(_event_pushes(body, wrong)), wrong))
@@ -158,12 +182,12 @@ def check(ctx):
         p = push[0]
         r = gs.xrender(body, body.site_expr(p)[2][1])
         ctx.ob("notify", "%s addresses the peer's first connection" % fn,
-               "peer_id: peer_id" in r and re.search(r"handler: libp2p_swarm::NotifyHandler::One\{0: std::option::Option::expect\(core::slice::first\(.*HashMap::get\(connections, peer_id\)@Some\.0\.connections", r) is not None,
+               ("peer_id: %s" % n_peer) in r and re.search(r"handler: libp2p_swarm::NotifyHandler::One\{0: std::option::Option::expect\(core::slice::first\(.*HashMap::get\(%s, %s\)@Some\.0\.connections" % (re.escape(n_conn), re.escape(n_peer)), r) is not None,
                p.loc(), r[:260])
         rets_ = body.return_blocks()
         lib.expect_count(ctx, "notify", "%s: at most one notification" % fn, body, [0], rets_, [p.bb], (0, 1), "push of %s" % variant)
         # silent returns
-        none_edges = lib.switch_edges_on(body, r"^discr\(std::collections::HashMap::get\(connections, peer_id\)\)$", {"None"})
+        none_edges = lib.switch_edges_on(body, r"^discr\(std::collections::HashMap::get\(%s, %s\)\)$" % (re.escape(n_conn), re.escape(n_peer)), {"None"})
         in_other = set()
         shape_ok = False
         for bi in sorted(body.live):
@@ -171,20 +195,20 @@ def check(ctx):
             if not info:
                 continue
             c = info[0]
-            if c[0] == "call" and re.search(r"BTreeSet::contains$", strip_generics(c[1])) and render(c[2][1]) == "peer_id":
+            if c[0] == "call" and re.search(r"BTreeSet::contains$", strip_generics(c[1])) and gs.is_arg(c[2][1], a_peer):
                 recv = c[2][0]
-                gets = [x for x in gs.calls(recv, r"HashMap::get$") if render(x[2][0]) == "mesh"]
+                gets = [x for x in gs.calls(recv, r"HashMap::get$") if gs.is_arg(x[2][0], a_mesh)]
                 if not gets:
                     continue
                 topic_e = gets[0][2][1]
                 # the exclusion test on the same topic element must dominate
                 if fn == "peer_added_to_mesh":
                     excl = body.guard_edges(lambda cc, rr, ll: ll == "false" and cc[0] == "call" and re.search(r"slice::<impl \[T\]>::contains$|slice::contains$", strip_generics(cc[1])) is not None
-                                            and "new_topics" in render(cc[2][0]) and render(cc[2][1]) == render(topic_e) and gs.next_call_bb(cc[2][1]) == gs.next_call_bb(topic_e))
+                                            and any(gs.is_arg(y, a_top) for y in mir.walk(cc[2][0])) and render(cc[2][1]) == render(topic_e) and gs.next_call_bb(cc[2][1]) == gs.next_call_bb(topic_e))
                 else:
                     excl = body.guard_edges(lambda cc, rr, ll: cc[0] == "call" and ((ll == "true" and re.search(r"PartialEq(<[^>]*>)?>?::ne$|cmp::impls.*::ne$", strip_generics(cc[1])) is not None)
                                                                                      or (ll == "false" and re.search(r"PartialEq(<[^>]*>)?>?::eq$|cmp::impls.*::eq$", strip_generics(cc[1])) is not None))
-                                            and {render(cc[2][0]), render(cc[2][1])} == {render(topic_e), "old_topic"})
+                                            and ((render(cc[2][0]) == render(topic_e) and gs.is_arg(cc[2][1], a_top)) or (render(cc[2][1]) == render(topic_e) and gs.is_arg(cc[2][0], a_top))))
                 head = gs.next_call_bb(topic_e)
                 dominated = bool(excl) and head is not None and body.must_pass_edges(bi, excl, start=head)
                 shape_ok = shape_ok or dominated
@@ -214,6 +238,31 @@ def check(ctx):
         rm = [x for x in oc.call_sites(r"Vec::remove$") if "connections" in gs.xrender(oc, oc.site_expr(x)[2][0])]
         lib.precedes(ctx, "notify", "closed connection is dropped from the list before the hand-over", oc, lib.bbs(rm), [s.bb], "connections.remove(index) precedes the JoinedMesh to connections[0]", s.loc())
     ctx.floor("notify", "hand-over JoinedMesh in on_connection_closed", _event_pushes(oc, "JoinedMesh"), 1)
+    # the hand-over must happen whenever a connection remains: a dominating test on the length of the connection list may only be a
+    # non-emptiness test (`!is_empty()`, `len() > 0`, ...); `len() > 1` skips the case of exactly one remaining connection, whose
+    # handler may never have been told
+    for s in _event_pushes(oc, "JoinedMesh"):
+        bad = []
+        n = 0
+        for text, labels, sw, cond in oc.guards_on_all_paths(s.bb):
+            x = gs.expand(oc, cond)
+            conn = lambda y: any(z[0] == "field" and z[2] == "connections" for z in mir.walk(y))
+            if x[0] == "call" and re.search(r"Vec::is_empty$", strip_generics(x[1])) and conn(x[2][0]):
+                n += 1
+                if set(labels) != {"false"}:
+                    bad.append("is_empty() required %s" % sorted(labels))
+            elif x[0] == "bin" and x[1] in ("Gt", "Ge", "Lt", "Le", "Eq", "Ne"):
+                for lenside, other, op in ((x[2], x[3], x[1]), (x[3], x[2], {"Gt": "Lt", "Ge": "Le", "Lt": "Gt", "Le": "Ge", "Eq": "Eq", "Ne": "Ne"}[x[1]])):
+                    if lenside[0] == "call" and re.search(r"Vec::len$", strip_generics(lenside[1])) and conn(lenside[2][0]):
+                        n += 1
+                        k = other[1] if other[0] == "const" else None
+                        lab = next(iter(labels)) if len(labels) == 1 else None
+                        nonempty = (op, k, lab) in (("Gt", 0, "true"), ("Ge", 1, "true"), ("Ne", 0, "true"), ("Eq", 0, "false"), ("Lt", 1, "false"), ("Le", 0, "false"))
+                        if not nonempty:
+                            bad.append("len() %s %s is %s" % (op, render(other), lab))
+        ctx.ob("notify", "hand-over happens whenever a connection remains", not bad, s.loc(),
+               "tests on the remaining connection list that dominate the hand-over: %d, all plain non-emptiness tests" % n if not bad else
+               "the hand-over is restricted by %s: with exactly one remaining connection the peer's only handler is never told JoinedMesh" % bad)
 
     # =================================================================== (C) inventory of mesh mutations
     adders, removers = {}, {}
@@ -383,7 +432,7 @@ def check(ctx):
                 falses = [s for s, e in gs.ret_exprs(cl) if e[0] == "const" and e[1] == 0]
                 others = [e for s, e in gs.ret_exprs(cl) if not (e[0] == "const" and e[1] in (0, 1))]
                 ok = bool(cp) and bool(falses) and not others and all(cl.must_pass_nodes([0], [s.bb], [x.bb for x, _ in cp]) for s in falses) \
-                    and all(render(ent[2][1]) in ("peer_id", "arg2") or ent[2][1][0] == "arg" for _, ent in cp)
+                    and all(ent[2][1][0] == "arg" for _, ent in cp)
                 msg = "retain closure: %d `false` result(s), each dominated by to_prune[peer].push(topic): %s" % (len(falses), ok)
             ctx.ob("cover", "heartbeat: every pruned peer is recorded in to_prune", ok, m.loc(), "score pruning — " + msg)
         else:
@@ -415,7 +464,8 @@ def check(ctx):
     sg = ctx.body(G, gs.BEH + r"send_graft_prune$")
     cs = sg.call_sites(ADDED)
     ctx.floor("cover", "peer_added_to_mesh in send_graft_prune", cs, 1)
-    graft_arg = [i for i in range(1, sg.argc + 1) if sg.names.get(i) == "to_graft"] or [2]
+    graft_arg = [gs.arg_of_type(sg, r"HashMap<libp2p_identity::PeerId, std::vec::Vec<topic::TopicHash>>", 0)]
+    prune_arg = gs.arg_of_type(sg, r"HashMap<libp2p_identity::PeerId, std::vec::Vec<topic::TopicHash>>", 1)
     for c in cs:
         ce = sg.site_expr(c)
         peer_head = gs.next_call_bb(ce[2][0])
@@ -447,7 +497,7 @@ def check(ctx):
         some = gs.some_edge_targets(sg, th) if th is not None else []
         got = lib.count_range(sg, some, [th], [c.bb]) if some else None
         src = gs.expand(sg, sg.site_expr(mir.Site(sg, ph))[2][0]) if ph is not None else ("unknown", "?")
-        ok = got == (1, 1) and any(x[0] in ("arg", "local") and (x[2] or "") == "to_prune" for x in mir.walk(src))
+        ok = got == (1, 1) and any(gs.is_arg(x, prune_arg) for x in mir.walk(src))
         ctx.ob("cover", "send_graft_prune: one peer_removed_from_mesh per remaining (peer, topic) of to_prune", ok, c.loc(), "per topic iteration: %s; iterates %s" % (got, render(src)[:100]))
 
     # ------------------------------------------------------------------- leave / remove_peer_from_mesh
